@@ -146,6 +146,13 @@ def run(ctx, col, tier):
 
 def _check_form(ctx, col, qual, params, oracle, what, rule="R-FORM"):
     repo = ctx.repo
+    from ..rules import rtolpos as _rtolpos
+    _rtolpos.run_conjoined(ctx, col, ("swcgeom.utils.volumetric_object.VolSphereFrustumConeIntersection._get_volume",
+                                      "swcgeom.utils.volumetric_object.VolSphereFrustumConeIntersection.calc_concentric_intersect_volume"))
+    col.rule("R-PAIR", "an end of a frustum is the centre and the radius of the SAME end: no 2-tuple and no pair of closeness tests takes the centre of "
+             "one end with the radius of the other (zero expected; positive examples kept)", floor=1)
+    from ..rules import endpair as _endpair
+    _endpair.check(ctx, col, "R-PAIR", ("swcgeom.utils.volumetric_object", "swcgeom.analysis.volume", "swcgeom.utils.solid_geometry"))
     d = repo.get_def(qual)
     expr = single_return(d)
     if expr is None:
